@@ -4,9 +4,17 @@
 import json, os, shutil, subprocess, sys
 VERIF = os.path.dirname(os.path.dirname(os.path.abspath(__file__)))
 pid = sys.argv[1]
-extra = sys.argv[2:]
-for v in ("A", "B"):
-    src = "/tmp/seed/%s/_seed/%s" % (pid, v)
+args = sys.argv[2:]
+root = "/tmp/seed"
+rename = {"A": "A", "B": "B"}
+if "--round2" in args:
+    args.remove("--round2")
+    root = "/tmp/seed2"
+    rename = {"A": "C", "B": "D"}
+extra = args
+for v0 in ("A", "B"):
+    v = rename[v0]
+    src = "%s/%s/_seed/%s" % (root, pid, v0)
     if not os.path.exists(os.path.join(src, "patch.diff")):
         print(pid, v, "missing")
         continue
